@@ -462,7 +462,8 @@ int main(int argc, char** argv) {
                 ctx.count("cases");
                 ctx.count(std::string("cases_") + kKinds[kind]);
                 ctx.count(std::string("ending_") + outcome_name(rr.outcome));
-                ctx.seen("nt", fmt("%s:%s", kKinds[kind], outcome_name(rr.outcome)));
+                ctx.seen("nt", fmt("%s:%s%s%s", kKinds[kind], outcome_name(rr.outcome), rr.outcome == ASSERT_ ? ":" : "",
+                                   rr.outcome == ASSERT_ ? rr.what.substr(0, 40).c_str() : ""));
                 if (rr.outcome == ASSERT_)
                     ctx.seen("deliberate_assertions", rr.what.substr(0, 60));
                 if (rr.outcome == OOB)
